@@ -222,6 +222,8 @@ UpToPin(lit, incl) == IF lit = <<>> THEN (IF incl THEN Points(<<lit>>) ELSE NoRe
 PinOf(e) ==       \* an envelope record, or tp = "NONE" when the conjunct pins nothing
   IF e.k = "bool" /\ e.n = 0 THEN NoRead
   ELSE IF e.k # "bin" THEN NoPin
+  \* `false` written as a comparison of two different literals (a bare false is refused under & by the checker)
+  ELSE IF e.op = "=" /\ e.a[1].k = "str" /\ e.a[2].k = "str" /\ e.a[1].s # e.a[2].s THEN NoRead
   ELSE IF e.op = "=" /\ IsKeyLit(e) THEN Points(<<e.a[2].s>>)
   ELSE IF e.op = "=" /\ IsLitKey(e) THEN Points(<<e.a[1].s>>)
   ELSE IF e.op = "in" /\ e.a[1].k = "key" /\ e.a[2].k = "list" /\ Len(e.a[2].a) > 0 /\ AllStr(e.a[2].a)
